@@ -79,10 +79,10 @@ def run_witnesses(rep, prop):
 
 
 # the naive policy never suspends: its share of pre-emption scenarios goes to DAGs whose branches run side by side on several pools
-FLAVOURS = {"C16": (("mixed", 0.45), ("tiny", 0.15), ("preempt", 0.15), ("herd", 0.1), ("fill", 0.15)),
-            "C12": (("mixed", 0.4), ("tiny", 0.15), ("preempt", 0.25), ("herd", 0.1), ("fill", 0.1)),
+FLAVOURS = {"C16": (("mixed", 0.4), ("tiny", 0.15), ("preempt", 0.1), ("herd", 0.1), ("fill", 0.13), ("leftover", 0.12)),
+            "C12": (("mixed", 0.37), ("tiny", 0.15), ("preempt", 0.25), ("herd", 0.1), ("fill", 0.08), ("leftover", 0.05)),
             "C17": (("mixed", 0.4), ("tiny", 0.15), ("branchy", 0.35), ("herd", 0.1)),
-            "C08": (("mixed", 0.35), ("tiny", 0.15), ("preempt", 0.2), ("herd", 0.1), ("branchy", 0.12), ("fill", 0.08)),
+            "C08": (("mixed", 0.35), ("tiny", 0.15), ("preempt", 0.2), ("herd", 0.1), ("branchy", 0.1), ("fill", 0.08), ("leftover", 0.04)),
             "C18": (("mixed", 0.4), ("tiny", 0.15), ("preempt", 0.15), ("herd", 0.1), ("branchy", 0.2))}
 
 
